@@ -329,7 +329,28 @@ func (h *H) emitMat(k vaxis.Key, b rune, m int, class string) {
 	h.r.Count("mat:" + class)
 }
 
-func (h *H) emitMstr(k vaxis.Key, s string, self bool, class string) {
+func (h *H) emitSelf(k vaxis.Key, class string) {
+	res := selfRes(k)
+	u := uniSet{}
+	u.addKey(k)
+	var str string
+	hx.Guard(func() { str = k.String() })
+	u.addStr(str)
+	h.r.Emit(fmt.Sprintf("self %s %s %s", u.tok(), foldTok(str), keyTok(k)), res)
+	h.r.Count("self:" + class)
+}
+
+func selfRes(k vaxis.Key) string {
+	var str string
+	var got bool
+	p, _ := hx.Guard(func() { str = k.String(); got = k.MatchString(str) })
+	if p {
+		return "panic"
+	}
+	return runesTok(str) + "|" + b01(got)
+}
+
+func (h *H) emitMstr(k vaxis.Key, s string, class string) {
 	var got bool
 	p, _ := hx.Guard(func() { got = k.MatchString(s) })
 	res := "0"
@@ -342,11 +363,7 @@ func (h *H) emitMstr(k vaxis.Key, s string, self bool, class string) {
 	u := uniSet{}
 	u.addKey(k)
 	u.addStr(s)
-	sf := "0"
-	if self {
-		sf = "1"
-	}
-	h.r.Emit(fmt.Sprintf("mstr %s %s %s %s %s", u.tok(), foldTok(s), keyTok(k), runesTok(s), sf), res)
+	h.r.Emit(fmt.Sprintf("mstr %s %s %s %s", u.tok(), foldTok(s), keyTok(k), runesTok(s)), res)
 	h.r.Count("mstr:" + class)
 }
 
@@ -627,17 +644,16 @@ func (h *H) matchStreams() {
 		"Caps_Lock", "ф", "Ф", "世", "ab", "фы", "K", "ISO_Level3_Shift", "iso_level3_ſhift", "Cmd", "Media_Play_Pause", "x+y", ":", ";", "1", "!"}
 	for _, k := range keys {
 		s := h.emitStr(k, "sample")
-		pressed := k.EventType == vaxis.EventPress || k.EventType == vaxis.EventRepeat
-		h.emitMstr(k, s, pressed, "own-String")
-		h.emitMstr(k, strings.ToLower(s), false, "own-String-lowercased")
-		h.emitMstr(k, strings.ToUpper(s), false, "own-String-uppercased")
+		h.emitSelf(k, "chord-sample")
+		h.emitMstr(k, strings.ToLower(s), "own-String-lowercased")
+		h.emitMstr(k, strings.ToUpper(s), "own-String-uppercased")
 		if i := strings.LastIndex(s, "+"); i > 0 && i < len(s)-1 {
 			parts := strings.Split(s[:i], "+")
 			for a, b := 0, len(parts)-1; a < b; a, b = a+1, b-1 {
 				parts[a], parts[b] = parts[b], parts[a]
 			}
-			h.emitMstr(k, strings.Join(parts, "+")+s[i:], false, "own-String-mods-reversed")
-			h.emitMstr(k, "caps+num+"+s, false, "own-String-with-locks")
+			h.emitMstr(k, strings.Join(parts, "+")+s[i:], "own-String-mods-reversed")
+			h.emitMstr(k, "caps+num+"+s, "own-String-with-locks")
 		}
 		for i := 0; i < 6; i++ {
 			var sb strings.Builder
@@ -645,7 +661,7 @@ func (h *H) matchStreams() {
 				sb.WriteString(gen.Pick(rng, mods) + "+")
 			}
 			sb.WriteString(gen.Pick(rng, tails))
-			h.emitMstr(k, sb.String(), false, "random-binding-string")
+			h.emitMstr(k, sb.String(), "random-binding-string")
 		}
 	}
 	// every named special key and every constant: String(), self match under all 64 printable modifier sets
@@ -655,8 +671,8 @@ func (h *H) matchStreams() {
 				continue
 			}
 			k := vaxis.Key{Keycode: kc, Modifiers: vaxis.ModifierMask(m)}
-			s := h.emitStr(k, "every-special-key-x-masks")
-			h.emitMstr(k, s, true, "every-special-key-x-masks")
+			h.emitStr(k, "every-special-key-x-masks")
+			h.emitSelf(k, "every-special-key-x-masks")
 		}
 	}
 	for _, kc := range []rune{vaxis.KeyEnter, vaxis.KeyTab, vaxis.KeyEsc, vaxis.KeySpace, vaxis.KeyBackspace, 'a', 'z', 'A', '+', '-', '1', 'ф', '世', 0x08} {
@@ -665,8 +681,8 @@ func (h *H) matchStreams() {
 			if m&int(vaxis.ModCapsLock) != 0 {
 				k.Text = string(unicode.ToUpper(kc))
 			}
-			s := h.emitStr(k, "aliases-and-chars-x-masks")
-			h.emitMstr(k, s, kc != 0x08, "aliases-and-chars-x-masks")
+			h.emitStr(k, "aliases-and-chars-x-masks")
+			h.emitSelf(k, "aliases-and-chars-x-masks")
 		}
 	}
 	for _, k := range []vaxis.Key{{Keycode: -1}, {Keycode: 0}, {Keycode: 1, Modifiers: 3}, {Keycode: 0x1A}, {Keycode: 0x1C}, {Keycode: 0x1F, Modifiers: 255},
@@ -857,6 +873,13 @@ func run(r *hx.Run) error {
 	}
 	for _, ops := range hx.Corpus("C09") {
 		for _, op := range ops {
+			if f := strings.Fields(op); len(f) == 4 && f[0] == "self" {
+				// the unicode table is rebuilt from the key's current String()
+				if k, ok := untokKey(f[3]); ok {
+					h.emitSelf(k, "corpus")
+					continue
+				}
+			}
 			res, ok := h.replay(strings.Fields(op))
 			if !ok {
 				res = "bad-op"
@@ -869,4 +892,11 @@ func run(r *hx.Run) error {
 	h.crossStreams()
 	h.matchStreams()
 	return nil
+}
+
+func b01(b bool) string {
+	if b {
+		return "1"
+	}
+	return "0"
 }
